@@ -330,6 +330,7 @@ void h_execlog_reset(void) {
     ftruncate(execlog_fd, 0);
     lseek(execlog_fd, 0, SEEK_SET);
 }
+int h_exec_status; /* exit status of the stub lookup command (it never prints anything) */
 /* runs in the forked child: write " exec:<hex file>;<hex arg0>,<hex arg1>,.." and leave */
 int h_execlp(const char *file, const char *arg0, ...) {
     va_list ap;
@@ -353,7 +354,7 @@ int h_execlp(const char *file, const char *arg0, ...) {
     va_end(ap);
     if (execlog_fd >= 0)
         write(execlog_fd, buf, q - buf);
-    _exit(0);
+    _exit(h_exec_status);
 }
 char *h_execlog_take(void) {
     static char buf[8300];
